@@ -186,27 +186,94 @@ def _contains(root, node):
     return any(n is node for n in ast.walk(root))
 
 
-def open_files_facts(tree):
-    fn = extract.find_def(tree, "open_files", cls="Process")
-    loops = [s for s in fn.body if isinstance(s, ast.For)]
-    if len(loops) != 1:
-        raise NotRecognised("open_files: one for loop expected")
-    loop = loops[0]
-    par = _parents(loop)
-    # path = readlink(file)
-    rl = [n for n in ast.walk(loop) if isinstance(n, ast.Assign) and isinstance(n.value, ast.Call)
+class _Loop:
+    """The `for` loop of open_files with its parent map. Each fact below is extracted by its OWN function
+    from this object, so that an unrecognised statement costs only the facts that speak about it."""
+
+    def __init__(self, tree):
+        self.fn = extract.find_def(tree, "open_files", cls="Process")
+        loops = [s for s in ast.walk(self.fn) if isinstance(s, ast.For)]
+        if len(loops) != 1:
+            raise NotRecognised("open_files: one for loop expected, found %d" % len(loops))
+        self.loop = loops[0]
+        self.par = _parents(self.fn)
+
+    def walk(self):
+        return ast.walk(self.loop)
+
+
+def _readlink_stmt(L):
+    rl = [n for n in L.walk() if isinstance(n, ast.Assign) and isinstance(n.value, ast.Call)
           and extract.dotted(n.value.func) == "readlink" and extract.dotted(n.targets[0]) == "path"]
     if len(rl) != 1:
         raise NotRecognised("open_files: path = readlink(file)")
-    link_gone = _guard_classes(rl[0], par, loop)
-    # path.startswith('/') ... isfile_strict(path)
-    isf = [n for n in ast.walk(loop) if isinstance(n, ast.Call) and extract.dotted(n.func) == "isfile_strict"]
+    return rl[0]
+
+
+def link_facts(L):
+    rl = _readlink_stmt(L)
+    return {"link_gone": _guard_classes(rl, L.par, L.loop),
+            "link_denied_raises": _link_denied_raises(rl, L.par, L.loop),
+            "other": _link_other(rl, L.par, L.loop)}
+
+
+def _errno_value(name):
+    import errno as _errno
+    v = getattr(_errno, name, None)
+    if not isinstance(v, int):
+        raise NotRecognised("errno.%s not defined on this host" % name)
+    return v
+
+
+def _link_other(node, par, stop):
+    """What the handlers around `readlink(file)` do with an OSError that is neither gone nor refused:
+    the errno numbers an `if err.errno == errno.X` / `in (...)` test `continue`s on (host values) and the
+    classes of non-`hit_enoent` handlers that swallow the exception whatever the errno."""
+    skip_errnos, skip_classes = set(), []
+    cur = node
+    while cur is not stop and cur in par:
+        p = par[cur]
+        if isinstance(p, ast.Try) and any(cur is b or _contains(b, cur) for b in p.body):
+            for h in p.handlers:
+                if _sets_hit(h):
+                    continue
+                classes = _handler_classes(h)
+                last = h.body[-1] if h.body else None
+                reraises = isinstance(last, ast.Raise) and last.exc is None
+                if not reraises:
+                    skip_classes += classes           # nothing leaves this handler as an exception
+                    continue
+                for st in h.body[:-1]:
+                    leaves = any(isinstance(x, (ast.Continue, ast.Break, ast.Return)) for x in ast.walk(st))
+                    if not leaves:
+                        continue
+                    names = set()
+                    if isinstance(st, ast.If):
+                        names = {n.attr for n in ast.walk(st.test) if isinstance(n, ast.Attribute)
+                                 and extract.dotted(n.value) == "errno"}
+                    if not names:
+                        skip_classes += classes       # leaves the handler unconditionally / on an unknown test
+                    for nm in names:
+                        skip_errnos.add(_errno_value(nm))
+        cur = p
+    return {"skip_errnos": sorted(skip_errnos), "skip_classes": sorted(set(skip_classes))}
+
+
+def filter_facts(L):
+    """the listing filter: TOTAL over the shapes `a and b [and …]` holding one isfile_strict(...) call —
+    a swapped / extended / negated test gives filterExact = false, absFirst = false instead of a skip"""
+    par = L.par
+    isf = [n for n in L.walk() if isinstance(n, ast.Call) and extract.dotted(n.func) == "isfile_strict"]
+    sw_all = [n for n in L.walk() if isinstance(n, ast.Call) and extract.dotted(n.func) == "path.startswith"
+              and len(n.args) == 1]
+    if not sw_all:
+        raise NotRecognised("open_files: no path.startswith(...) test in the loop")
+    prefix = _text(sw_all[0].args[0])
     if len(isf) != 1:
-        raise NotRecognised("open_files: one isfile_strict(path) call expected")
+        return {"prefix": prefix, "filter_exact": False, "abs_first": False}
     bo = par.get(isf[0])
     if not (isinstance(bo, ast.BoolOp) and isinstance(bo.op, ast.And)):
-        raise NotRecognised("open_files: isfile_strict(path) is not a conjunct of an `and`")
-    # `if a and b: <block>` or `if not (a and b): continue`
+        return {"prefix": prefix, "filter_exact": False, "abs_first": False}
     holder = par.get(bo)
     if isinstance(holder, ast.If) and holder.test is bo:
         shape_ok = not holder.orelse
@@ -216,50 +283,173 @@ def open_files_facts(tree):
                     and not par[holder].orelse)
     else:
         shape_ok = False
+    idx_isf = [i for i, v in enumerate(bo.values) if v is isf[0]]
+    idx_sw = [i for i, v in enumerate(bo.values) if isinstance(v, ast.Call) and extract.dotted(v.func) == "path.startswith"]
+    abs_first = bool(idx_isf and idx_sw and idx_sw[0] < idx_isf[0])
     first = bo.values[0]
-    if not (isinstance(first, ast.Call) and extract.dotted(first.func) == "path.startswith" and len(first.args) == 1):
-        raise NotRecognised("open_files: first conjunct is not path.startswith(...)")
-    prefix = _text(first.args[0])
-    # the filter is EXACTLY `path.startswith(<prefix>) and isfile_strict(path)`: no further clause (on the
-    # name, on a prefix, …) decides whether a descriptor is listed, and no other test of `path` in the loop
-    sw = [n for n in ast.walk(loop) if isinstance(n, ast.Call) and isinstance(n.func, ast.Attribute)
+    # EXACTLY `path.startswith(<prefix>) and isfile_strict(path)`: no further clause decides whether a
+    # descriptor is listed, and no other method of `path` is consulted in the loop
+    sw = [n for n in L.walk() if isinstance(n, ast.Call) and isinstance(n.func, ast.Attribute)
           and extract.dotted(n.func.value) == "path"]
     filter_exact = (len(bo.values) == 2 and bo.values[1] is isf[0] and len(sw) == 1 and sw[0] is first
+                    and isinstance(first, ast.Call) and extract.dotted(first.func) == "path.startswith"
                     and [ast.unparse(a) for a in isf[0].args] == ["path"] and shape_ok)
-    # open_binary(file) and the two reads
-    ob = [n for n in ast.walk(loop) if isinstance(n, ast.Call) and extract.dotted(n.func) == "open_binary"]
+    if idx_sw:
+        prefix = _text(bo.values[idx_sw[0]].args[0])
+    return {"prefix": prefix, "filter_exact": filter_exact, "abs_first": abs_first}
+
+
+def _open_call(L):
+    ob = [n for n in L.walk() if isinstance(n, ast.Call) and extract.dotted(n.func) == "open_binary"]
     if len(ob) != 1:
         raise NotRecognised("open_files: open_binary(file)")
-    reads = {}
-    for n in ast.walk(loop):
-        if isinstance(n, ast.Assign) and extract.dotted(n.targets[0]) in ("pos", "flags") \
-                and isinstance(n.value, ast.Call) and extract.dotted(n.value.func) == "int":
-            nm = extract.dotted(n.targets[0])
-            if nm in reads:
-                raise NotRecognised("open_files: two assignments to %s" % nm)
-            reads[nm] = n
-    if set(reads) != {"pos", "flags"}:
-        raise NotRecognised("open_files: pos/flags assignments")
-    if not (reads["pos"].lineno < reads["flags"].lineno):
+    return ob[0]
+
+
+def _read_stmt(L, nm):
+    hits = [n for n in L.walk() if isinstance(n, ast.Assign) and extract.dotted(n.targets[0]) == nm
+            and isinstance(n.value, ast.Call) and extract.dotted(n.value.func) == "int"]
+    if len(hits) != 1:
+        raise NotRecognised("open_files: one `%s = int(...)` assignment expected, found %d" % (nm, len(hits)))
+    return hits[0]
+
+
+def info_open_facts(L):
+    return {"info_gone": _guard_classes(_open_call(L), L.par, L.loop)}
+
+
+def info_read_facts(L):
+    pos, fl = _read_stmt(L, "pos"), _read_stmt(L, "flags")
+    if not (pos.lineno < fl.lineno):
         raise NotRecognised("open_files: flags read before pos")
-    pos_idx, pos_base = _int_call(reads["pos"].value)
-    fl_idx, fl_base = _int_call(reads["flags"].value)
-    info_gone = _guard_classes(ob[0], par, loop)
-    g1 = _guard_classes(reads["pos"], par, loop)
-    g2 = _guard_classes(reads["flags"], par, loop)
-    read_gone = [c for c in g1 if c in g2]          # a class guards "the reads" only if it guards both
-    calls = [n for n in ast.walk(loop) if isinstance(n, ast.Call) and extract.dotted(n.func) == "popenfile"]
-    if len(calls) != 1 or [ast.unparse(a) for a in calls[0].args] != ["path", "int(fd)", "int(pos)", "mode", "flags"]:
-        raise NotRecognised("open_files: popenfile(path, int(fd), int(pos), mode, flags)")
-    final = False
-    after = fn.body[fn.body.index(loop) + 1:]
+    g1 = _guard_classes(pos, L.par, L.loop)
+    g2 = _guard_classes(fl, L.par, L.loop)
+    return {"read_gone": [c for c in g1 if c in g2]}     # a class guards "the reads" only if it guards both
+
+
+def pos_facts(L):
+    fl = _read_stmt(L, "flags")
+    pos = _read_stmt(L, "pos")
+    if not (pos.lineno < fl.lineno):
+        raise NotRecognised("open_files: flags read before pos")
+    return _int_call(pos.value)
+
+
+def flags_facts(L):
+    pos = _read_stmt(L, "pos")
+    fl = _read_stmt(L, "flags")
+    if not (pos.lineno < fl.lineno):
+        raise NotRecognised("open_files: flags read before pos")
+    return _int_call(fl.value)
+
+
+def final_facts(L):
+    after = L.fn.body[L.fn.body.index(L.loop) + 1:] if L.loop in L.fn.body else []
     for s in after:
         if isinstance(s, ast.If) and extract.dotted(s.test) == "hit_enoent" \
                 and extract.calls_in(s, "_raise_if_not_alive"):
-            final = True
-    return {"link_gone": link_gone, "info_gone": info_gone, "read_gone": read_gone, "prefix": prefix,
-            "pos": (pos_idx, pos_base), "flags": (fl_idx, fl_base), "final": final,
-            "link_denied_raises": _link_denied_raises(rl[0], par, loop), "filter_exact": filter_exact}
+            return True
+    return False
+
+
+FD_DIR = "f'{self._procfs_path}/{self.pid}/fd'"
+
+
+def loop_facts(L):
+    """what the loop runs over: `for fd in files` / `for fd in files[:N]`, `files = os.listdir(<pid>/fd)`,
+    no early exit, every tuple appended, `retlist` returned. TOTAL: an unknown iterable gives
+    loopOverListdir = false (and scanLimit = none), never a skip."""
+    loop, fn = L.loop, L.fn
+    it = loop.iter
+    limit = None
+    base = it
+    known = True
+    if isinstance(it, ast.Subscript) and isinstance(it.slice, ast.Slice):
+        sl = it.slice
+        up = extract.const(sl.upper) if sl.upper is not None else None
+        if sl.lower is None and sl.step is None and isinstance(up, int) and not isinstance(up, bool) and up >= 0:
+            limit, base = up, it.value
+        else:
+            known = False
+    var = extract.dotted(base) if isinstance(base, ast.Name) else None
+    target_ok = isinstance(loop.target, ast.Name) and loop.target.id == "fd"
+    assigns = [s for s in ast.walk(fn) if isinstance(s, ast.Assign) and var is not None
+               and any(extract.dotted(t) == var for t in s.targets)]
+    from_listdir = (len(assigns) == 1 and isinstance(assigns[0].value, ast.Call)
+                    and extract.dotted(assigns[0].value.func) == "os.listdir"
+                    and [ast.unparse(a) for a in assigns[0].value.args] == [FD_DIR] and not assigns[0].value.keywords)
+    if isinstance(base, ast.Call) and extract.dotted(base.func) == "os.listdir" \
+            and [ast.unparse(a) for a in base.args] == [FD_DIR]:
+        from_listdir = True
+    # mutation of the list between the listdir and the loop (del files[…], files.pop(), files.sort() …)
+    touched = [n for n in ast.walk(fn) if var is not None and (
+        (isinstance(n, ast.Call) and isinstance(n.func, ast.Attribute) and extract.dotted(n.func.value) == var)
+        or (isinstance(n, (ast.Delete, ast.AugAssign)) and any(isinstance(x, ast.Name) and x.id == var for x in ast.walk(n))))]
+    early = [n for n in ast.walk(loop) if isinstance(n, (ast.Break, ast.Return))]
+    appends = [n for n in ast.walk(loop) if isinstance(n, ast.Call) and extract.dotted(n.func) == "retlist.append"]
+    append_ok = False
+    if len(appends) == 1 and [ast.unparse(a) for a in appends[0].args] == ["ntuple"]:
+        # the append is the statement right after `ntuple = popenfile(...)`, not under a further test
+        holder = L.par.get(L.par.get(appends[0]))
+        body = None
+        for fld in ("body", "orelse", "finalbody"):
+            blk = getattr(holder, fld, None)
+            if isinstance(blk, list) and L.par.get(appends[0]) in blk:
+                body = blk
+        if body is not None:
+            i = body.index(L.par[appends[0]])
+            prev = body[i - 1] if i > 0 else None
+            append_ok = (isinstance(prev, ast.Assign) and extract.dotted(prev.targets[0]) == "ntuple"
+                         and isinstance(prev.value, ast.Call) and extract.dotted(prev.value.func) == "popenfile")
+    rets = [n for n in ast.walk(fn) if isinstance(n, ast.Return)]
+    ret_ok = len(rets) == 1 and rets[0] is fn.body[-1] and extract.dotted(rets[0].value) == "retlist"
+    init = [s for s in fn.body if isinstance(s, ast.Assign) and extract.dotted(s.targets[0]) == "retlist"]
+    init_ok = len(init) == 1 and ast.unparse(init[0].value) == "[]"
+    others = [n for n in ast.walk(fn) if isinstance(n, ast.Call) and isinstance(n.func, ast.Attribute)
+              and extract.dotted(n.func.value) == "retlist" and n not in appends]
+    calls = [n for n in ast.walk(loop) if isinstance(n, ast.Call) and extract.dotted(n.func) == "popenfile"]
+    tuple_ok = len(calls) == 1 and [ast.unparse(a) for a in calls[0].args] == ["path", "int(fd)", "int(pos)", "mode", "flags"] \
+        and not calls[0].keywords
+    ok = (known and target_ok and from_listdir and not touched and not early and append_ok and ret_ok and init_ok
+          and not others and tuple_ok and not loop.orelse)
+    return {"limit": limit, "over_listdir": ok}
+
+
+def path_facts(L):
+    """`file = f"…/fd/{fd}"` handed to readlink and `file = f"…/fdinfo/{fd}"` handed to open_binary"""
+    want = {"f'{self._procfs_path}/{self.pid}/fd/{fd}'": "readlink", "f'{self._procfs_path}/{self.pid}/fdinfo/{fd}'": "open_binary"}
+    got = {}
+    for n in L.walk():
+        if isinstance(n, ast.Assign) and extract.dotted(n.targets[0]) == "file":
+            got[ast.unparse(n.value)] = True
+    rl = _readlink_stmt(L)
+    ob = _open_call(L)
+    args_ok = [ast.unparse(a) for a in rl.value.args] == ["file"] and [ast.unparse(a) for a in ob.args] == ["file"]
+    return set(got) == set(want) and args_ok
+
+
+def num_fds_facts(tree):
+    """TOTAL: `return len(os.listdir(<pid>/fd))` → (True, None); `return min(len(…), N)` → (True, N); anything else
+    → (False, None)"""
+    fn = extract.find_def(tree, "num_fds", cls="Process")
+    body = [s for s in fn.body if not (isinstance(s, ast.Expr) and isinstance(s.value, ast.Constant))]
+    if len(body) != 1 or not isinstance(body[0], ast.Return):
+        return {"len_listdir": False, "cap": None}
+    v = body[0].value
+
+    def is_len(x):
+        return (isinstance(x, ast.Call) and extract.dotted(x.func) == "len" and len(x.args) == 1
+                and isinstance(x.args[0], ast.Call) and extract.dotted(x.args[0].func) == "os.listdir"
+                and [ast.unparse(a) for a in x.args[0].args] == [FD_DIR] and not x.args[0].keywords)
+    if is_len(v):
+        return {"len_listdir": True, "cap": None}
+    if isinstance(v, ast.Call) and extract.dotted(v.func) == "min" and len(v.args) == 2 and not v.keywords:
+        a, b = v.args
+        for x, y in ((a, b), (b, a)):
+            c = extract.const(y) if isinstance(y, ast.Constant) else None
+            if is_len(x) and isinstance(c, int) and not isinstance(c, bool) and c >= 0:
+                return {"len_listdir": True, "cap": c}
+    return {"len_listdir": False, "cap": None}
 
 
 DENIED_ERRNOS = ("EACCES", "EPERM")
@@ -400,6 +590,37 @@ def io_facts(tree):
     return {"sep": sep, "guarded": in_body, "keys": keys}
 
 
+def io_iter_fact(tree):
+    """TOTAL: the lines are those of `for line in f` where `f` is bound by `with open_binary(fname) as f` and
+    `fname` is `f"{procfs}/{pid}/io"`; the loop body starts with `line = line.strip()` then `if line:`"""
+    fn = _find_method_anywhere(tree, "Process", "io_counters")
+    withs = [n for n in ast.walk(fn) if isinstance(n, ast.With)]
+    if len(withs) != 1 or len(withs[0].items) != 1:
+        return False
+    it = withs[0].items[0]
+    if not (isinstance(it.context_expr, ast.Call) and extract.dotted(it.context_expr.func) == "open_binary"
+            and [ast.unparse(a) for a in it.context_expr.args] == ["fname"] and it.optional_vars is not None
+            and extract.dotted(it.optional_vars) == "f"):
+        return False
+    fname = [s for s in ast.walk(fn) if isinstance(s, ast.Assign) and extract.dotted(s.targets[0]) == "fname"]
+    if len(fname) != 1 or ast.unparse(fname[0].value) != "f'{self._procfs_path}/{self.pid}/io'":
+        return False
+    loops = [n for n in ast.walk(fn) if isinstance(n, ast.For)]
+    if len(loops) != 1 or loops[0] not in withs[0].body:
+        return False
+    lp = loops[0]
+    if not (isinstance(lp.iter, ast.Name) and lp.iter.id == "f" and extract.dotted(lp.target) == "line" and not lp.orelse):
+        return False
+    body = [s for s in lp.body if not (isinstance(s, ast.Expr) and isinstance(s.value, ast.Constant))]
+    if len(body) != 2 or ast.unparse(body[0]) != "line = line.strip()":
+        return False
+    if not (isinstance(body[1], ast.If) and ast.unparse(body[1].test) == "line" and not body[1].orelse):
+        return False
+    # nothing else reads from f
+    uses = [n for n in ast.walk(fn) if isinstance(n, ast.Name) and n.id == "f" and isinstance(n.ctx, ast.Load)]
+    return len(uses) == 1
+
+
 def pio_fields(tree):
     for st in tree.body:
         if isinstance(st, ast.Assign) and extract.dotted(st.targets[0]) == "pio" \
@@ -432,8 +653,16 @@ def facts(snap, F):
     def r():
         return get("readlink", readlink_facts)
 
-    def o():
-        return get("open_files", open_files_facts)
+    def L():
+        return get("loop", _Loop)
+
+    def o(part):
+        fn = {"link": link_facts, "filter": filter_facts, "info_open": info_open_facts, "info_read": info_read_facts,
+              "pos": pos_facts, "flags": flags_facts, "final": final_facts, "loopshape": loop_facts, "paths": path_facts}[part]
+        return get("of:" + part, lambda _t: fn(L()))
+
+    def n():
+        return get("num_fds", num_fds_facts)
 
     def i():
         return get("io", io_facts)
@@ -454,28 +683,28 @@ def facts(snap, F):
     F.try_add("finalReplOld", "List Nat", lambda: lean_bytes(m()["final_repl"][0]), "the unconditional mode.replace(OLD, new)")
     F.try_add("finalReplNew", "List Nat", lambda: lean_bytes(m()["final_repl"][1]), "the unconditional mode.replace(old, NEW)")
     F.try_add("finalReplCount", "Option Nat", lambda: lean_opt(m()["final_repl"][2], lean_nat), "its count (none = all)")
-    F.try_add("posIdx", "Nat", lambda: lean_nat(o()["pos"][0]), "index into f.readline().split() for the pos: line")
-    F.try_add("posBase", "Nat", lambda: lean_nat(o()["pos"][1]), "base of int() for the pos: line")
-    F.try_add("flagsIdx", "Nat", lambda: lean_nat(o()["flags"][0]), "index into f.readline().split() for the flags: line")
-    F.try_add("flagsBase", "Nat", lambda: lean_nat(o()["flags"][1]), "base of int() for the flags: line (the kernel prints octal)")
+    F.try_add("posIdx", "Nat", lambda: lean_nat(o("pos")[0]), "index into f.readline().split() for the pos: line")
+    F.try_add("posBase", "Nat", lambda: lean_nat(o("pos")[1]), "base of int() for the pos: line")
+    F.try_add("flagsIdx", "Nat", lambda: lean_nat(o("flags")[0]), "index into f.readline().split() for the flags: line")
+    F.try_add("flagsBase", "Nat", lambda: lean_nat(o("flags")[1]), "base of int() for the flags: line (the kernel prints octal)")
     F.try_add("delSuffix", "List Nat", lambda: lean_bytes(r()["suffix"]), "the ' (deleted)' literal of readlink()")
     F.try_add("delCut", "Nat", lambda: lean_nat(r()["cut"]), "N of path[:-N] in readlink()")
-    F.try_add("absPrefix", "List Nat", lambda: lean_bytes(o()["prefix"]), "argument of path.startswith() in open_files")
-    F.try_add("filterExact", "Bool", lambda: lean_bool(o()["filter_exact"]),
+    F.try_add("absPrefix", "List Nat", lambda: lean_bytes(o("filter")["prefix"]), "argument of path.startswith() in open_files")
+    F.try_add("filterExact", "Bool", lambda: lean_bool(o("filter")["filter_exact"]),
               "the listing filter is exactly `path.startswith(prefix) and isfile_strict(path)`: no other clause about the path")
-    F.try_add("linkGoneEnoent", "Bool", lambda: has(o()["link_gone"], "FileNotFoundError"),
+    F.try_add("linkGoneEnoent", "Bool", lambda: has(o("link")["link_gone"], "FileNotFoundError"),
               "ENOENT from readlink sets hit_enoent and continues")
-    F.try_add("linkGoneEsrch", "Bool", lambda: has(o()["link_gone"], "ProcessLookupError"),
+    F.try_add("linkGoneEsrch", "Bool", lambda: has(o("link")["link_gone"], "ProcessLookupError"),
               "ESRCH from readlink sets hit_enoent and continues")
-    F.try_add("infoGoneEnoent", "Bool", lambda: has(o()["info_gone"], "FileNotFoundError"),
+    F.try_add("infoGoneEnoent", "Bool", lambda: has(o("info_open")["info_gone"], "FileNotFoundError"),
               "ENOENT from opening fdinfo sets hit_enoent")
-    F.try_add("infoGoneEsrch", "Bool", lambda: has(o()["info_gone"], "ProcessLookupError"),
+    F.try_add("infoGoneEsrch", "Bool", lambda: has(o("info_open")["info_gone"], "ProcessLookupError"),
               "ESRCH from opening fdinfo sets hit_enoent")
-    F.try_add("infoReadGoneEnoent", "Bool", lambda: has(o()["read_gone"], "FileNotFoundError"),
+    F.try_add("infoReadGoneEnoent", "Bool", lambda: has(o("info_read")["read_gone"], "FileNotFoundError"),
               "ENOENT raised by the two f.readline() of an already opened fdinfo file sets hit_enoent")
-    F.try_add("infoReadGoneEsrch", "Bool", lambda: has(o()["read_gone"], "ProcessLookupError"),
+    F.try_add("infoReadGoneEsrch", "Bool", lambda: has(o("info_read")["read_gone"], "ProcessLookupError"),
               "ESRCH raised by the two f.readline() of an already opened fdinfo file sets hit_enoent")
-    F.try_add("finalAliveCheck", "Bool", lambda: lean_bool(o()["final"]),
+    F.try_add("finalAliveCheck", "Bool", lambda: lean_bool(o("final")),
               "`if hit_enoent: self._raise_if_not_alive()` follows the loop")
     F.try_add("ioSep", "List Nat", lambda: lean_bytes(i()["sep"]), "separator of line.split() in io_counters")
     F.try_add("ioKeys", "List (List Nat)", lambda: lean_list(i()["keys"], lean_bytes),
@@ -497,13 +726,42 @@ def facts(snap, F):
               "isfile_strict re-raises PermissionError (EACCES / EPERM from os.stat) instead of answering False")
     F.try_add("existsDeniedRaises", "Bool", lambda: lean_bool(st()["path_exists_strict"]),
               "path_exists_strict re-raises PermissionError instead of answering False")
-    F.try_add("linkGoneDenied", "Bool", lambda: has_exact(o()["link_gone"], "PermissionError"),
+    F.try_add("linkGoneDenied", "Bool", lambda: has_exact(o("link")["link_gone"], "PermissionError"),
               "the handler around readlink(file) that sets hit_enoent also catches PermissionError")
-    F.try_add("linkDeniedRaises", "Bool", lambda: lean_bool(o()["link_denied_raises"]),
+    F.try_add("linkDeniedRaises", "Bool", lambda: lean_bool(o("link")["link_denied_raises"]),
               "EACCES / EPERM from readlink(file) is re-raised by the `except OSError` handler (not one of the errnos it skips)")
-    F.try_add("infoGoneDenied", "Bool", lambda: has_exact(o()["info_gone"], "PermissionError"),
+    F.try_add("infoGoneDenied", "Bool", lambda: has_exact(o("info_open")["info_gone"], "PermissionError"),
               "the handler around the fdinfo block that sets hit_enoent also catches PermissionError")
     F.try_add("wrapPermAD", "Bool", lambda: lean_bool(w()["perm_ad"]),
               "wrap_exceptions turns PermissionError into AccessDenied(pid, ...)")
     F.try_add("wrapZombieFirst", "Bool", lambda: lean_bool(w()["zombie_first"]),
               "wrap_exceptions calls self._raise_if_zombie() first in the ProcessLookupError and FileNotFoundError handlers")
+
+    # ---- round 3
+    KNOWN = ("FileNotFoundError", "ProcessLookupError", "PermissionError")
+
+    def extra(classes):
+        return lean_list(sorted({c for c in classes if c not in KNOWN}), lambda c: lean_bytes(c.encode()))
+
+    F.try_add("absFirst", "Bool", lambda: lean_bool(o("filter")["abs_first"]),
+              "in the listing filter path.startswith(prefix) is evaluated BEFORE isfile_strict(path) (short-circuit: a non-absolute text is never stat'ed)")
+    F.try_add("scanLimit", "Option Nat", lambda: lean_opt(o("loopshape")["limit"], lean_nat),
+              "N of `for fd in files[:N]` (none: the loop runs over all of `files`)")
+    F.try_add("loopOverListdir", "Bool", lambda: lean_bool(o("loopshape")["over_listdir"]),
+              "`files = os.listdir(<procfs>/<pid>/fd)` is what the loop runs over; no break/return in the loop; every popenfile tuple is appended; `return retlist`")
+    F.try_add("fdPathsExact", "Bool", lambda: lean_bool(o("paths")),
+              "readlink is given <procfs>/<pid>/fd/<fd> and open_binary <procfs>/<pid>/fdinfo/<fd>")
+    F.try_add("linkSkipErrnos", "List Nat", lambda: lean_list(o("link")["other"]["skip_errnos"], lean_nat),
+              "errno numbers (host values) on which the `except OSError` handler around readlink(file) continues")
+    F.try_add("linkSkipClasses", "List (List Nat)",
+              lambda: lean_list(o("link")["other"]["skip_classes"], lambda c: lean_bytes(c.encode())),
+              "classes of handlers around readlink(file) that swallow the exception without looking at the errno")
+    F.try_add("linkGoneExtra", "List (List Nat)", lambda: extra(o("link")["link_gone"]),
+              "classes besides FileNotFoundError / ProcessLookupError / PermissionError caught by the hit_enoent handler around readlink(file)")
+    F.try_add("infoGoneExtra", "List (List Nat)", lambda: extra(o("info_open")["info_gone"]),
+              "classes besides FileNotFoundError / ProcessLookupError / PermissionError caught by the hit_enoent handler around the fdinfo block")
+    F.try_add("numFdsLenListdir", "Bool", lambda: lean_bool(n()["len_listdir"]),
+              "num_fds returns len(os.listdir(<procfs>/<pid>/fd)) (possibly capped, see numFdsCap)")
+    F.try_add("numFdsCap", "Option Nat", lambda: lean_opt(n()["cap"], lean_nat), "N of min(len(...), N) in num_fds (none: no cap)")
+    F.try_add("ioIterFile", "Bool", lambda: lean_bool(get("ioiter", io_iter_fact)),
+              "io_counters reads `for line in f` over the object of `with open_binary(<procfs>/<pid>/io) as f`, each line stripped, empty ones skipped")
